@@ -28,6 +28,7 @@ struct LinkState {
     read_plan: VecDeque<ReadStep>,
     flush_plan: VecDeque<WriteStep>,
     flush_calls: usize,
+    flush_releases: usize,
     inbox: VecDeque<u8>,
     blocked: bool,
     releases: usize,
@@ -79,7 +80,11 @@ impl LinkState {
                     }
                 }
                 6 => { out.extend_from_slice(&[0x70, 2, body[0], body[1]]); }
-                8 => { if self.v5 { out.extend_from_slice(&[0x90, 4, body[0], body[1], 0, 0]); } else { out.extend_from_slice(&[0x90, 3, body[0], body[1], 0]); } }
+                8 => {
+                    // a subscription to `noack/..` is never answered (for ack-timeout scenarios)
+                    let silent = body.windows(5).any(|w| w == b"noack");
+                    if silent {} else if self.v5 { out.extend_from_slice(&[0x90, 4, body[0], body[1], 0, 0]); } else { out.extend_from_slice(&[0x90, 3, body[0], body[1], 0]); }
+                }
                 10 => { if self.v5 { out.extend_from_slice(&[0xb0, 4, body[0], body[1], 0, 0]); } else { out.extend_from_slice(&[0xb0, 2, body[0], body[1]]); } }
                 12 => { out.extend_from_slice(&[0xd0, 0]); }
                 14 => { self.eof = true; }
@@ -173,10 +178,16 @@ impl Write for Link {
         // a transport that buffers (TLS, websocket): flushing a non-blocking socket may have to be retried
         let mut st = self.0.lock().unwrap();
         st.flush_calls += 1;
-        match st.flush_plan.pop_front() {
-            Some(WriteStep::Block) => Err(std::io::Error::from(std::io::ErrorKind::WouldBlock)),
-            Some(WriteStep::Error) => Err(std::io::Error::from(std::io::ErrorKind::BrokenPipe)),
-            _ => Ok(()),
+        match st.flush_plan.front().cloned() {
+            // `w`: would block, call after call, until the controller's `frelease`
+            Some(WriteStep::Accept(1)) => {
+                if st.flush_releases > 0 { st.flush_releases -= 1; st.flush_plan.pop_front(); Ok(()) }
+                else { Err(std::io::Error::from(std::io::ErrorKind::WouldBlock)) }
+            }
+            Some(WriteStep::Block) => { st.flush_plan.pop_front(); Err(std::io::Error::from(std::io::ErrorKind::WouldBlock)) }
+            Some(WriteStep::Error) => { st.flush_plan.pop_front(); Err(std::io::Error::from(std::io::ErrorKind::BrokenPipe)) }
+            Some(_) => { st.flush_plan.pop_front(); Ok(()) }
+            None => Ok(()),
         }
     }
 }
@@ -236,7 +247,7 @@ impl Shared {
             v5: self.v5, wire: Vec::new(), parsed: 0, packets_seen: 0,
             write_plan: std::mem::take(&mut *self.write_plan.lock().unwrap()),
             read_plan: std::mem::take(&mut *self.read_plan.lock().unwrap()),
-            flush_plan: std::mem::take(&mut *self.flush_plan.lock().unwrap()), flush_calls: 0,
+            flush_plan: std::mem::take(&mut *self.flush_plan.lock().unwrap()), flush_calls: 0, flush_releases: 0,
             inbox: VecDeque::new(), blocked: false, releases: 0, write_waker: None, read_waker: None, eof: false,
             answer: self.answer, write_calls: 0, read_calls: 0, wlog: Vec::new(), rlog: Vec::new(),
         })));
@@ -313,7 +324,7 @@ pub fn run(head: &str, steps: &str) -> Result<String, String> {
     let (wplan, rplan) = parse_plans(head);
     let shared = Arc::new(Shared {
         links: Mutex::new(Vec::new()), v5, write_plan: Mutex::new(wplan), read_plan: Mutex::new(rplan),
-        flush_plan: Mutex::new(get("fplan").unwrap_or("").split(',').filter_map(|t| match t { "b" => Some(WriteStep::Block), "e" => Some(WriteStep::Error), "o" => Some(WriteStep::Accept(0)), _ => None }).collect()),
+        flush_plan: Mutex::new(get("fplan").unwrap_or("").split(',').filter_map(|t| match t { "b" => Some(WriteStep::Block), "e" => Some(WriteStep::Error), "o" => Some(WriteStep::Accept(0)), "w" => Some(WriteStep::Accept(1)), _ => None }).collect()),
         answer: get("answer").unwrap_or("1") != "0", refuse: Mutex::new(get("refuse").and_then(|x| x.parse().ok()).unwrap_or(0)),
         connect_delay_ms: get("cdelay").and_then(|x| x.parse().ok()).unwrap_or(0),
     });
@@ -407,6 +418,7 @@ pub fn run(head: &str, steps: &str) -> Result<String, String> {
     };
 
     let mut notes: Vec<String> = Vec::new();
+    let mut marks: Vec<String> = Vec::new();
     for step in steps.split(';').map(|s| s.trim()).filter(|s| !s.is_empty()) {
         let parts: Vec<&str> = step.split(':').collect();
         match parts[0] {
@@ -463,6 +475,20 @@ pub fn run(head: &str, steps: &str) -> Result<String, String> {
                 let ok = wait_until(2000, || shared.current().map(|l| l.0.lock().unwrap().blocked).unwrap_or(false));
                 if !ok { notes.push("waitblocked-timeout".to_string()); }
             }
+            "frelease" => {
+                if let Some(l) = shared.current() { l.0.lock().unwrap().flush_releases += 1; }
+            }
+            "subto" => {
+                // subto:<ms>: a subscribe with an ack timeout that the broker never answers (threaded client)
+                let ms: u64 = parts.get(1).and_then(|x| x.parse().ok()).unwrap_or(100);
+                let tag = slots.lock().unwrap().len();
+                let slot = new_slot(&slots);
+                if let Handle::Threaded(c) = &handle {
+                    let options = SubscribeOptions::builder().with_ack_timeout(Duration::from_millis(ms)).build();
+                    let r = c.subscribe(SubscribePacket::builder().with_subscription_simple(format!("noack/{}", tag), QualityOfService::AtLeastOnce).build(), Some(options));
+                    std::thread::spawn(move || { let v = r.recv(); slot.lock().unwrap().push(error_name(&v)); });
+                }
+            }
             "release" => {
                 if let Some(l) = shared.current() {
                     let mut st = l.0.lock().unwrap();
@@ -498,7 +524,13 @@ pub fn run(head: &str, steps: &str) -> Result<String, String> {
                     if let Some(w) = st.read_waker.take() { w.wake(); }
                 }
             }
-            "mark" => { events.lock().unwrap().push(format!("|{}|", parts.get(1).copied().unwrap_or("mark"))); }
+            "mark" => {
+                let name = parts.get(1).copied().unwrap_or("mark");
+                events.lock().unwrap().push(format!("|{}|", name));
+                // how every submitted operation stands at this moment
+                let now: Vec<String> = slots.lock().unwrap().iter().map(|s| { let v = s.lock().unwrap(); if v.is_empty() { "unresolved".to_string() } else { v.join("/") } }).collect();
+                marks.push(format!("{}={}", name, now.join("+")));
+            }
             "sleep" => { std::thread::sleep(Duration::from_millis(parts.get(1).and_then(|x| x.parse().ok()).unwrap_or(1))); }
             "waitdone" => {
                 let limit: u64 = parts.get(1).and_then(|x| x.parse().ok()).unwrap_or(3000);
@@ -523,5 +555,5 @@ pub fn run(head: &str, steps: &str) -> Result<String, String> {
     }
     let wlogs: Vec<String> = shared.links.lock().unwrap().iter().map(|l| l.0.lock().unwrap().wlog.join("/")).collect();
     let reads: Vec<String> = shared.links.lock().unwrap().iter().map(|l| hex(&l.0.lock().unwrap().rlog)).collect();
-    Ok(format!("res=ok wires={} results={} sync={} notes={} calls={} reads={} events={} wlog={}", wires.join(","), results.join(","), sync_errors.lock().unwrap().join(","), notes.join(","), calls.join(","), reads.join(","), event_list, wlogs.join(",")))
+    Ok(format!("res=ok wires={} results={} sync={} notes={} calls={} reads={} events={} marks={} wlog={}", wires.join(","), results.join(","), sync_errors.lock().unwrap().join(","), notes.join(","), calls.join(","), reads.join(","), event_list, marks.join(";"), wlogs.join(",")))
 }
